@@ -186,7 +186,9 @@ func seqRound(sc SeqCase) (v kit.Verdict) {
 				if err := ls.apply(name, s.sub); err != nil {
 					kit.Note("sequence", "a logger returned an error on some generated message (the forwarded bytes are still compared)")
 				}
-				if s.c.Skip && ls.count(name) != before {
+				// (the marbl stream writes its frames on its own goroutine: it is
+				// judged at the end of the round by the IDs in the frames)
+				if name != "marbl" && s.c.Skip && ls.count(name) != before {
 					s.v.Addf("C15/skip-logging/"+name+"/recorded", "message %d is marked skip-logging, yet the %s logger recorded it", i, name)
 				}
 			}
@@ -245,6 +247,15 @@ func seqRound(sc SeqCase) (v kit.Verdict) {
 		}
 		for _, i := range order {
 			forwardOne(i)
+		}
+	}
+
+	for i, s := range ms {
+		// every exchange sends at least four header frames, and a frame is
+		// written before the next one is accepted: frames of a recorded
+		// exchange are on the writer by now
+		if s.c.Skip && sc.Logger != "snapshot" && ls.mw.frames(s.sub.ctx.ID()) > 0 {
+			s.v.Addf("C15/skip-logging/marbl/recorded", "message %d is marked skip-logging, yet the marbl stream holds %d frames with its ID", i, ls.mw.frames(s.sub.ctx.ID()))
 		}
 	}
 
@@ -409,11 +420,11 @@ func seqClasses(sc SeqCase) []string {
 var propSequence = &kit.Prop[SeqCase]{
 	ID: "C15", Name: "sequence",
 	Rule: "2..4 generated messages (requests and responses, bodies up to 70 kB of different sizes) pass the SAME logger instance(s) (HAR, marbl, text logger, snapshots, or all three stacked), some logged on another goroutine, before they are forwarded - either all logged first and forwarded in a drawn order, or pipelined (message i forwarded after message i+1 was logged); each forwarded message is compared with its unlogged twin, each snapshot re-parsed, skip-logging judged per message; every sequence is repeated 3 times; non-trivial = at least two messages with a body",
-	Gen: genSeq, Run: runSeq,
+	Gen:  genSeq, Run: runSeq,
 	NonTrivial: func(sc SeqCase) bool { b, _, _ := seqSizes(sc); return b >= 2 },
 	Classes:    seqClasses,
 	Gates: map[string]float64{"nontrivial": 0.5, "later-smaller": 0.25, "later-larger": 0.25, "other-goroutine": 0.3, "pipeline": 0.3, "batch": 0.3,
-		"logger-har": 0.15, "logger-text": 0.15, "logger-snapshot": 0.15, "logger-stack": 0.08},
+		"logger-har": 0.15, "logger-text": 0.15, "logger-snapshot": 0.15, "logger-stack": 0.05},
 }
 
 func TestSequence(t *testing.T) {
